@@ -140,11 +140,12 @@ def fcase_to_coq(c):
 def run(ctx):
     h = vlib.build_harness(ctx, 'c03')
     env = dict(os.environ, VERIF_SEED=str(ctx.seed))
-    replay_modules = None
+    replay_modules = replay_opt = None
+    replay_race = False
     if ctx.replay:
         rp = json.load(open(ctx.replay))
         if rp.get('modules'):
-            replay_modules = rp['modules']
+            replay_modules, replay_opt, replay_race = rp['modules'], rp.get('opt'), bool(rp.get('race'))
 
     # ---------------- 1. framework correspondence -------------------------------------------------------
     hout = os.path.join(ctx.tmp, 'helpers.jsonl')
@@ -193,8 +194,23 @@ def run(ctx):
         r1, r2 = [], []
 
     # ---------------- 2. the exercised remainder: lint the corpora with all rules enabled ------------------
-    summ = shared.run_corpus(ctx, h, 'C03', replay_modules)
-    best = shared.report_failures(ctx, summ, 'C03')
+    race_env = {'GORACE': 'halt_on_error=1'}
+    if replay_race:
+        # a race report is replayed with the harness built with -race
+        summ = shared.run_corpus(ctx, vlib.build_harness(ctx, 'c03', race=True), 'C03', replay_modules, replay_opt, env_extra=race_env)
+        best = shared.report_failures(ctx, summ, 'C03', race=True)
+    else:
+        summ = shared.run_corpus(ctx, h, 'C03', replay_modules, replay_opt)
+        best = shared.report_failures(ctx, summ, 'C03')
+    race_stats = None
+    if not ctx.quick() and not ctx.replay:
+        # thorough: the large single-call batches once more under the race detector; a report ends the worker process
+        # (halt_on_error) and is handled like a crash: narrowed by halving, reported with the two stacks
+        hr = vlib.build_harness(ctx, 'c03', race=True)
+        rsumm = shared.run_corpus(ctx, hr, 'C03', mode='large', tag='_race', env_extra=race_env)
+        rbest = shared.report_failures(ctx, rsumm, 'C03', race=True)
+        best = dict(best, **{'race: ' + k: v for k, v in rbest.items()})
+        race_stats = shared.corpus_stats(rsumm)
 
     # ---------------- verdicts of part 1 ---------------------------------------------------------------------
     for i in sorted(set(r2))[:3]:
@@ -237,12 +253,18 @@ def run(ctx):
                 'families "uncompilable" (what the parser accepts and the compiler refuses: shadowing/duplicate imports, rule kinds under one '
                 'name, conflicting defaults, unsafe vars, recursion, unknown functions, wrong arities, assignments to taken names, with '
                 'targets, type errors) and "comment placement" (a comment at every token boundary / pair of boundaries of every bracketed '
-                'construct), grammar-generated modules, mutations), batched per Lint call with bisection of failing batches, crash isolation '
-                'and minimisation in worker processes, plus single-file runs',
+                'construct), "quoted rego" (package/import/rule/directive/METADATA-looking lines inside raw strings, strings and comments of '
+                'v0-only, v1-only and both-version modules, version detected and configured) and "line breaks" (a break at every token '
+                'boundary of every kind of head and body expression), grammar-generated modules, mutations), batched per Lint call with '
+                'bisection of failing batches, crash isolation and minimisation in worker processes, plus single-file runs, plus large '
+                'single-call runs (>= 1000 small files in ONE Lint call, every rule and rule subsets, GOMAXPROCS >= 16; thorough: again '
+                'under the race detector). "Parseable" is decided by OPA\'s own parser tried as v1 and v0, independently of regal\'s '
+                'version detection: a module OPA accepts and regal cannot parse is a violation',
         'propagation_scenarios': len(props), 'propagation_failing_singles': sorted({f for c in props if len(c['files']) == 1 and not c['got_ok'] for f in c['files']}),
         'framework_cases': len(keep), 'framework_cases_by_function': hist, 'conflict_errors_observed_outside_premises': conflicts_seen - len(set(r2)),
         'mismatch_model': len(r1), 'mismatch_spec': len(r2), 'unrepresentable': len(unrep),
         'corpus': st,
+        'large_runs_under_race_detector': race_stats,
         'lint_failure_signatures': sorted(best),
         'samples': [keep[len(keep) // 3], keep[len(keep) // 2]] if keep else [],
         'exhaustive': False,
